@@ -92,6 +92,9 @@ func (w *world) adopt(lg slog.Logger, parent *node, name string, inherit *node) 
 	}
 	if inherit != nil {
 		n.level, n.format = inherit.level, inherit.format
+		// the statement says a child starts with the receiver's level and format; which zone mode and time layout it starts
+		// with is not stated: unknown until they are set on the child itself
+		n.utc, n.layout = -1, "?"
 	}
 	n.wid = 100 + n.id
 	rec := vlib.NewRec(w.log, n.wid, 0).(io.Writer)
@@ -345,7 +348,7 @@ func (w *world) probe(n *node) {
 	}
 	slog.SetFlags(vlib.BaseFlags)
 	// timestamp zone and layout through an explicit instant
-	if n.level != slog.OffLevel && n.format != fColor {
+	if n.level != slog.OffLevel && n.format != fColor && n.utc >= 0 && n.layout != "?" {
 		ts := time.Date(2024, 3, 9, 22, 30, 15, 123456789, time.FixedZone("", 5*3600+1800))
 		before := w.log.Len()
 		n.lg.(slog.LogSlogAware).WriteThru(context.Background(), slog.AlwaysLevel, ts, 0, "ts probe", nil)
